@@ -227,6 +227,59 @@ Proof.
   - destruct (C eq_refl) as [_ Hn]. rewrite (Hn k). destruct (m_cache (g_sh c) k); lia.
 Qed.
 
+
+(* ---------- termination: the thread inside always finishes its request (no self-deadlock, no endless recursion) ---------- *)
+Notation mlines lf := (lines _ _ (mline V g virt true lf)).
+Lemma term_create lf k tk st (IHk : forall d, d < k -> forall sh st', exists sh' v,
+                                 mlines lf sh (mkML (Lookup d) st') sh' (mkML (Deliver d v) st')) :
+  nth_error g k = Some tk ->
+  forall todo, (forall d, In d todo -> d < k) -> forall sh got, exists sh' v,
+    mlines lf sh (mkML (Create k todo got) st) sh' (mkML (Deliver k v) st).
+Proof.
+  intros En todo. induction todo as [|d r IH]; intros Hlt sh got.
+  - eexists. exists (t_fn tk got). eapply ln_step; [|apply ln_refl]. unfold mline. simpl. rewrite En, andb_false_r. reflexivity.
+  - destruct (IHk d (Hlt d (or_introl eq_refl)) sh (Fr k r got :: st)) as (sh1 & v & L1).
+    destruct (IH (fun x Hx => Hlt x (or_intror Hx)) sh1 (got ++ [v])) as (sh2 & v2 & L2).
+    exists sh2, v2. eapply ln_step; [unfold mline; simpl; reflexivity|].
+    eapply lines_trans; [exact L1|]. eapply ln_step; [unfold mline; simpl; reflexivity|exact L2].
+Qed.
+
+Lemma term_lookup lf : forall n d, d < n -> d < List.length g -> forall sh st, exists sh' v,
+  mlines lf sh (mkML (Lookup d) st) sh' (mkML (Deliver d v) st).
+Proof.
+  induction n as [|n IH]; intros d Hd Hg sh st; [lia|].
+  destruct (if lf then m_cache sh d else None) as [v|] eqn:Ec.
+  - exists sh, v. eapply ln_step; [|apply ln_refl]. unfold mline. simpl. rewrite Ec. reflexivity.
+  - destruct (nth_error g d) as [tk|] eqn:En; [|apply nth_error_None in En; lia].
+    destruct (term_create lf d tk st) with (todo := t_deps tk) (sh := sh) (got := @nil V) as (sh' & v & L); auto.
+    + intros d' Hd' sh0 st'. apply IH; lia.
+    + intros d' Hin. exact (wf_deps V g d tk d' Hwf En Hin).
+    + exists sh', v. eapply ln_step; [|exact L]. unfold mline. simpl. rewrite Ec, En. reflexivity.
+Qed.
+
+Theorem memo_terminates lf t sh : exists sh' lo',
+  cs_run _ _ (mline V g virt true lf) sh (mstart V want t) sh' (OFin lo').
+Proof.
+  unfold mstart. destruct (Nat.lt_ge_cases (want t) (List.length g)) as [Hlt|Hge].
+  - destruct (term_lookup lf (S (want t)) (want t) (Nat.lt_succ_diag_r _) Hlt sh []) as (sh' & v & L).
+    exists sh', (mkML (Deliver (want t) v) []). eapply lines_cs_run; [exact L|]. apply cs_fin. reflexivity.
+  - destruct (if lf then m_cache sh (want t) else None) as [v|] eqn:Ec.
+    + exists sh, (mkML (Deliver (want t) v) []). eapply cs_go; [unfold mline; simpl; rewrite Ec; reflexivity|].
+      apply cs_fin. reflexivity.
+    + exists sh, (mkML Raised []). apply nth_error_None in Hge.
+      eapply cs_go; [unfold mline; simpl; rewrite Ec, Hge; reflexivity|]. apply cs_fin. reflexivity.
+Qed.
+
+(* in every reachable configuration the thread that is inside can complete its request by its own steps alone *)
+Theorem memo_holder_finishes lf schedule :
+  let c := gexec _ _ (mline V g virt true lf) (mstart V want) (m0 V) schedule in
+  forall t lo, g_th c t = GIn lo -> exists sh' lo', cs_run _ _ (mline V g virt true lf) (g_sh c) lo sh' (OFin lo').
+Proof.
+  apply (holder_finishes _ _ (mline V g virt true lf) (mstart V want) (fun _ => True) (fun _ _ => True)).
+  - intros t sh _. destruct (memo_terminates lf t sh) as (sh' & lo' & H). exists sh', lo'. auto.
+  - exact Logic.I.
+Qed.
+
 End MemoP.
 
 (* refutations for A: what the lock, its kind and the look-up-first order buy *)
@@ -251,6 +304,12 @@ Lemma memo_example :
   option_map (mresult nat) (match g_th c 1 with GDone lo => Some lo | _ => None end) = Some (Some 7) /\
   map (m_count (g_sh c)) [0; 1] = [1; 1].
 Proof. vm_compute. repeat split; reflexivity. Qed.
+
+(* a virtual sensor that needs itself never finishes (the comment in SensorCache.__init__: "hopefully without a loop"):
+   outside the well-founded graphs the termination theorem does not hold -- after 300 lines the thread is still inside *)
+Lemma memo_cycle_refuted :
+  run_cs _ _ (mline nat [mkTask [0] (fun _ => 0)] (fun _ => true) true true) 300 (m0 nat) (mstart nat (fun _ => 0) 0) = None.
+Proof. vm_compute. reflexivity. Qed.
 
 (* the translated facts the instance theorems rest on *)
 Lemma sensor_reentrant_true : sensor_reentrant = true.
